@@ -69,6 +69,9 @@ func genC08(seed int64, tier string) *Scenario {
 	}
 	sc.Knobs["faulty"], sc.Knobs["anomalies"] = faulty, anomalies
 	sc.Plugin = r.Intn(3) == 0
+	// a client that goes on with its first messages right after `initialized`, without waiting for
+	// the start-up diagnostics to arrive
+	sc.Eager = r.Intn(6) == 0
 	// Documents outside the workspace are NOT part of C08's histories: while such a document is open
 	// the server analyses it together with the workspace and closing it does not re-run what depended
 	// on it (findings/C08-outside-document-closed-class-still-resolved.json), which shows up under a
